@@ -310,7 +310,8 @@ func rollingCfg(r *vs.Rand) scfg {
 	cfg.Finalize = r.Chance(45)
 	if r.Chance(30) {
 		// custom revision-history paths; spec.extra is never set on these parents (an unrecorded earlier path)
-		cfg.FieldPaths = [][]string{{"spec.image"}, {"spec.extra", "spec.image"}}[r.Intn(2)]
+		// ... or paths under two top-level fields, the second of which (metadata.annotations) only exists from the first change on
+		cfg.FieldPaths = [][]string{{"spec.image"}, {"spec.extra", "spec.image"}, {"spec.image", "metadata.annotations"}}[r.Intn(3)]
 	}
 	return cfg
 }
@@ -327,6 +328,12 @@ func (sc *scenario) setParentImage(image string) {
 		md := o["metadata"].(map[string]interface{})
 		g, _ := md["generation"].(int64)
 		md["generation"] = g + 1
+		for _, fp := range sc.Cfg.FieldPaths {
+			if fp == "metadata.annotations" {
+				// the revisioned annotation appears with the first change: the first revision was recorded without it
+				md["annotations"] = map[string]interface{}{"rev-note": image}
+			}
+		}
 	})
 }
 
